@@ -1,19 +1,28 @@
 import Cellml.Tie.Loader
 import Cellml.Tie.ConnLoopClosed
 import Cellml.C17.Lift
+import Cellml.Tie.LoaderStagesA
+import Cellml.Tie.LoaderStagesC
+import Cellml.Tie.LoaderStagesD
 
 /-! # Transfer lemmas: from the loader ties to statements whose subject is the GENERATED code
 
     * `symbolGenerator_fuel`  — the generated closure `symbol_generator` for EVERY loop bound (the tie
       `symbolGenerator_tie` is the instance `fuel = |mapping|`);
-    * `genStages`, `genParse`, `genStages_eq`, `genParse_tie` — the generated `Parser.parse` run over stages in which
-      the connection work list is the closed GENERATED loop (`genConnect`); `connect_err_class`: the classes it raises;
+    * `genAddConnections`, `genAddConnections_eq` — `_add_connections` as a whole: the GENERATED set-up part
+      (`Gen.ConnSetup.addConnectionsSetup`, spec key `before_while`) hands deque, `unchanged_loop_count = 0` and the state
+      to the closed generated loop `genConnectLoop`; `connect_err_class`: the classes the work list raises;
+    * `genStages`, `genParse`, `genParse_tie` — the generated `Parser.parse` run over stages that are GENERATED CODE down
+      to the leaves: `_add_units`, `_add_components`, `_add_relationships` (+ `_handle_component_ref`),
+      `_add_connections` (+ `_determine_connection_direction`), the symbol resolution of `_add_maths`,
+      `transform_constants` (`Tie/LoaderStagesA…D.lean`: each stage proved equal to the stage of the hand model it
+      replaces; `genStages_mid`); `genParse_tie`: it IS `C17.loadFull`;
     * `parse_ok_iff`, `parse_error_of_loadFull`, `parse_isErr_iff`, `parse_ok_flat` — `genParse` succeeds / raises
-      exactly when `C17.loadFull` does (corollaries of `parse_tie`);
+      exactly when `C17.loadFull` does (corollaries of `genParse_tie`);
     * `loadFull_ok_parts` — what a successful `loadFull` went through. -/
 
 namespace Cellml.Tie.GenA
-open Load Cellml.Gen Cellml.Tie
+open Load Cellml.Gen Cellml.Tie Cellml.Tie.LoaderClose
 
 /-- the generated `symbol_generator` with its `while` cut off after `n` iterations, for every `n` -/
 theorem symbolGenerator_fuel (vt : VarTable) (m : List (VRef × VRef)) (n : Nat) (cname x : String) :
@@ -83,58 +92,184 @@ theorem connect_err_class {reg : Registry} {vt : VarTable} {l : List (VRef × VR
   rw [h] at this
   exact connectLoopF_err_class reg vt _ _ _ _ _ this
 
-/-- the stages the generated `parse` is run over: those of the hand model (`parseView fd`, each tied or bound
-    separately, see notes/reports/TIE_Loader.md), EXCEPT that the work list of `_add_connections` is the closed loop over
-    the GENERATED loop test and loop body (`genConnect`), its exceptions passed on as raised -/
+/-! ## `_add_connections` as a whole: generated set-up, then the closed generated loop -/
+
+/-- `Parser._add_connections`: the GENERATED set-up part (`connected_variable_mapping = {}`, the loops over
+    `<connection>` / `<map_variables>` with the generated `_determine_connection_direction`, `unchanged_loop_count = 0`)
+    hands its results — deque, counter, state — to the closed loop over the GENERATED test and body. The state it
+    starts from is the one `Model.add_variable` leaves (`Load.initState`: a variable without an `in` interface is its
+    own `assigned_to`). Returns the deque (as `Load.Loaded` keeps it) and the final work-list state. -/
+def genAddConnections (comps : List String) (par : ParentMap) (reg : Registry) (vt : VarTable) (conns : List Conn) :
+    Except PyErr (List (VRef × VRef) × CState) :=
+  match ConnSetup.addConnectionsSetup ⟨comps, loaderView par vt⟩ ⟨connElems conns⟩ (initState vt) with
+  | .error e => .error e
+  | .ok (dq, unch, st0) => (genConnectLoop reg vt dq unch st0).map (fun st => (dq, st))
+
+/-- the start values of `genConnect` (counter `0`, the state `initState vt`) ARE what the generated set-up returns -/
+theorem genAddConnections_eq (comps : List String) (par : ParentMap) (reg : Registry) (vt : VarTable)
+    (conns : List Conn) :
+    genAddConnections comps par reg vt conns =
+      match directAll comps par vt conns with
+      | .error e => .error ⟨e.className⟩
+      | .ok dl => (genConnect reg vt dl).map (fun st => (dl, st)) := by
+  unfold genAddConnections
+  rw [connSetup_tie]
+  cases directAll comps par vt conns <;> rfl
+
+/-- the stage `connected_variable_mapping = self._add_connections(model_xml)` -/
+def genConnStage (d : C17.FaultDoc) (st : ParseState) : Except PyErr ParseState :=
+  match st.units, st.par with
+  | some (reg, ust), some par =>
+    let vt := varTable ust d.doc.comps
+    match genAddConnections (d.doc.comps.map (·.name)) par reg vt d.doc.conns with
+    | .error e => .error e
+    | .ok (dl, cst) => .ok { st with loaded := some ⟨reg, ust, vt, par, dl, cst⟩ }
+  | _, _ => notReady
+
+theorem genConnStage_eq (fd : C17.FaultDoc) : genConnStage = (parseView fd).addConnections := by
+  funext d st
+  simp only [genConnStage, parseView]
+  cases st.units with
+  | none => rfl
+  | some u =>
+    obtain ⟨reg, ust⟩ := u
+    cases st.par with
+    | none => rfl
+    | some par =>
+      simp only
+      rw [genAddConnections_eq]
+      cases hd : directAll (d.doc.comps.map (·.name)) par (varTable ust d.doc.comps) d.doc.conns with
+      | error e => simp [stageErr, directAll_err_class _ _ _ _ _ hd]
+      | ok dl =>
+        simp only
+        rw [genConnect_eq]
+        cases hc : connect reg (varTable ust d.doc.comps) dl with
+        | error e => simp [errClass, Except.map, stageErr, connect_err_class hc]
+        | ok cst => rfl
+
+/-! ## the stages of `Parser.parse`, generated down to the leaves -/
+
+/-- the stages the generated `parse` is run over. GENERATED (each proved equal to the stage of the hand model it
+    replaces): `_add_units` (`genUnitsStage`: set-up pass + closed `while`), `_add_components` (`genCompsStage`),
+    `_add_relationships` with `_handle_component_ref` (`genRelStage`, recursion closed), `_add_connections`
+    (`genConnStage`: set-up part with `_determine_connection_direction`, closed `while`), the symbol resolution of
+    `_add_maths` (`genMathsStage`: every identifier through the GENERATED closure `symbol_generator`; the walk of the
+    MathML transpiler around it belongs to C02 and is written by hand there), `transform_constants`
+    (`genConstsStage'`, on the equations `_add_maths` added). Still the hand model's: the refusal of left-hand sides
+    outside the fragment (`C17.badEqErr`) and the XML leaves `etree.parse`, `_validate` (RELAX NG), the `findall` of
+    `component/units`, `Model(...)`, `_add_rdf`. -/
 def genStages (fd : C17.FaultDoc) : ParseView :=
   { parseView fd with
-    addConnections := fun d st => match st.units, st.par with
-      | some (reg, ust), some par =>
-        let vt := varTable ust d.doc.comps
-        match directAll (d.doc.comps.map (·.name)) par vt d.doc.conns with
-        | .error e => stageErr e
-        | .ok dl => match genConnect reg vt dl with
-          | .error e => .error e
-          | .ok cst => .ok { st with loaded := some ⟨reg, ust, vt, par, dl, cst⟩ }
-      | _, _ => notReady }
+    addUnits := genUnitsStage
+    addComponents := genCompsStage
+    addRelationships := genRelStage
+    addConnections := genConnStage
+    addMaths := genMathsStage fd
+    transformConstants := genConstsStage' }
 
-/-- with the closed generated loop in place of `Load.connect` the stages are the same functions -/
-theorem genStages_eq (fd : C17.FaultDoc) : genStages fd = parseView fd := by
-  have h : (genStages fd).addConnections = (parseView fd).addConnections := by
-    funext d st
-    simp only [genStages, parseView]
-    cases st.units with
-    | none => rfl
-    | some u =>
-      obtain ⟨reg, ust⟩ := u
-      cases st.par with
-      | none => rfl
-      | some par =>
-        simp only
-        cases directAll (d.doc.comps.map (·.name)) par (varTable ust d.doc.comps) d.doc.conns with
-        | error e => rfl
-        | ok dl =>
-          simp only
-          rw [genConnect_eq]
-          cases hc : connect reg (varTable ust d.doc.comps) dl with
-          | error e => simp [errClass, stageErr, connect_err_class hc]
-          | ok cst => rfl
-  unfold genStages at h ⊢
-  simp only at h
-  rw [h]
+/-- the stages that are pointwise those of the hand model put back: what is left differs from `parseView fd` in the
+    class of a unit error (as raised), in the equations `_add_maths` records, and in `transform_constants` (equal on
+    tables with distinct identities) -/
+def midStages (fd : C17.FaultDoc) : ParseView :=
+  { parseView fd with
+    addUnits := genUnitsStage
+    addMaths := genMathsStage fd
+    transformConstants := genConstsStage' }
+
+theorem genStages_mid (fd : C17.FaultDoc) : genStages fd = midStages fd := by
+  unfold genStages midStages
+  rw [genCompsStage_eq fd, genRelStage_eq fd, genConnStage_eq fd]
 
 /-- **the subject of the `…_gen` theorems about loading**: the generated `Parser.parse` on a fresh parser state -/
 def genParse (fd : C17.FaultDoc) (us : Option Unit) : Except PyErr ParseState :=
   LoaderParse.parse (genStages fd) us {}
 
+/-- the exception class `genParse` raises when `C17.loadFull` refuses with `e`: the class `load_model` shows
+    (`C17.className`), except that an error of the unit work list is passed on AS RAISED by the generated
+    `_add_units` — `UndefinedUnitError` / `BadDefinition` where `loadFull` says `Unsupported` -/
+def genClass (fd : C17.FaultDoc) (e : Err) : String :=
+  if C17.schemaVars fd.doc && fd.compUnits.isEmpty then
+    match Units.addUnits 0 fd.udefs with
+    | .error ue => unitsClass ue
+    | .ok _ => C17.className e
+  else C17.className e
+
+theorem genClass_of_units_ok {fd : C17.FaultDoc} {r : Registry × Units.Store} (h : Units.addUnits 0 fd.udefs = .ok r)
+    (e : Err) : genClass fd e = C17.className e := by
+  unfold genClass; rw [h]; simp
+
+/-- **`Parser.parse`, generated down to the leaves, IS `C17.loadFull`**: the same finished flat model, or an
+    exception exactly when `loadFull` refuses (class `genClass`) -/
 theorem genParse_tie (fd : C17.FaultDoc) (us : Option Unit) :
     (genParse fd us).map (·.flat) =
       match C17.loadFull fd with
-      | .error e => .error ⟨C17.className e⟩
+      | .error e => .error ⟨genClass fd e⟩
       | .ok F => .ok (some F) := by
   unfold genParse
-  rw [genStages_eq]
-  exact parse_tie fd us
+  rw [genStages_mid]
+  unfold LoaderParse.parse C17.loadFull genClass
+  simp only [midStages, genMathsStage_eq, parseView, bind, Except.bind, throw, throwThe, MonadExceptOf.throw, stageErr,
+    genUnitsStage_eq]
+  by_cases hs : C17.schemaVars fd.doc = true
+  · simp only [hs, Bool.not_true, Bool.false_eq_true, if_false, Bool.true_and]
+    by_cases hu : fd.compUnits = []
+    case neg =>
+      have h1 : (fd.compUnits.length != 0) = true := by
+        cases h : fd.compUnits with
+        | nil => exact absurd h hu
+        | cons a l => rfl
+      have h2 : fd.compUnits.isEmpty = false := by
+        cases h : fd.compUnits with
+        | nil => exact absurd h hu
+        | cons a l => rfl
+      simp [h1, h2, Except.map, C17.className, Err.className]
+    case pos =>
+      simp only [hu, List.length_nil, bne_self_eq_false, Bool.false_eq_true, if_false, List.isEmpty_nil, Bool.not_true,
+        if_true]
+      cases hadd : Units.addUnits 0 fd.udefs with
+      | error e => simp [Except.map]
+      | ok u =>
+        obtain ⟨reg, ust⟩ := u
+        simp only []
+        cases hr : C17.reactionErr ust fd with
+        | some e => simp [Except.map]
+        | none =>
+          simp only [C17.prepareFrom]
+          cases hc : checkComps ust fd.doc.comps [] ([], fd.doc.cmeta.toList) with
+          | error e => simp [Except.map]
+          | ok acc =>
+            simp only []
+            cases hb : buildParents (fd.doc.comps.map (·.name)) fd.doc.encaps [] [] with
+            | error e => simp [Except.map]
+            | ok par =>
+              simp only []
+              cases hd : directAll (fd.doc.comps.map (·.name)) par (varTable ust fd.doc.comps) fd.doc.conns with
+              | error e => simp [Except.map]
+              | ok dl =>
+                simp only []
+                cases hcn : connect reg (varTable ust fd.doc.comps) dl with
+                | error e => simp [Except.map]
+                | ok cst =>
+                  simp only []
+                  cases hbe : fd.badEqs.head? with
+                  | some b => simp [Except.map]
+                  | none =>
+                    simp only [C17.finishFrom]
+                    cases hm : checkMaths ust (varTable ust fd.doc.comps) cst fd.doc.comps
+                        (cst.convs.map (·.target)) with
+                    | error e => simp [Except.map]
+                    | ok defined =>
+                      simp only []
+                      rw [genConstsStage'_eq fd _ ⟨reg, ust, varTable ust fd.doc.comps, par, dl, cst⟩ defined rfl rfl rfl,
+                        genConstsStage_eq fd _ ⟨reg, ust, varTable ust fd.doc.comps, par, dl, cst⟩ defined rfl rfl
+                        (checkComps_nodup hc)]
+                      simp only [parseView, stageErr]
+                      cases hk : checkConstants
+                          (Loaded.states ⟨reg, ust, varTable ust fd.doc.comps, par, dl, cst⟩ fd.doc) defined
+                          (varTable ust fd.doc.comps) with
+                      | error e => simp [Except.map]
+                      | ok u => simp [Except.map]
+  · simp [hs, Except.map, C17.className, Err.className]
 
 /-- the generated `parse` returns a finished model exactly when `loadFull` does, and it is the same model -/
 theorem parse_ok_iff (fd : C17.FaultDoc) (us : Option Unit) (F : Flat) :
@@ -144,9 +279,9 @@ theorem parse_ok_iff (fd : C17.FaultDoc) (us : Option Unit) (F : Flat) :
   | error e => simp
   | ok F' => simp
 
-/-- the generated `parse` raises whenever `loadFull` does, with the class of `loadFull`'s error -/
+/-- the generated `parse` raises whenever `loadFull` does, with the class `genClass` -/
 theorem parse_error_of_loadFull {fd : C17.FaultDoc} (us : Option Unit) {e : Err} (h : C17.loadFull fd = .error e) :
-    genParse fd us = .error ⟨C17.className e⟩ := by
+    genParse fd us = .error ⟨genClass fd e⟩ := by
   have := genParse_tie fd us
   rw [h] at this
   cases hp : genParse fd us with
